@@ -170,6 +170,36 @@ def scenarios():
             exp = lab_v1.Resp(note="re:" + rpc)
             if (out != [exp, exp]) if kind.endswith("stream") else (out != exp):
                 failures.append({"case": f"async {pyname}", "returned": repr(out)[:200]})
+    mc = G.run_isolated("props.C03_native", "module_collision_in_one_method")
+    return {"cases": cases + mc["cases"], "failures": failures + mc["failures"]}
+
+
+def module_collision_in_one_method():
+    """One rpc whose request and reply come from two proto-plus dependency packages with same-named files (identity/common.proto,
+    billing/common.proto): the service modules import both under distinct names and refer to each through its own name."""
+    import ast
+    from vf import genlab as G
+    from props.C12_native import import_bindings_unique
+    from props.C01_native import undefined_names
+    G.stub_pandoc_if_absent()
+    T = G.T
+    ident = G.new_file("acme/identity/v1/common.proto", "acme.identity.v1")
+    G.add_message(ident, "Account", [G.F("name", 1, T.TYPE_STRING)])
+    bill = G.new_file("acme/billing/v1/common.proto", "acme.billing.v1")
+    G.add_message(bill, "Invoice", [G.F("total", 1, T.TYPE_INT32)])
+    fd = G.new_file("acme/desk/v1/desk.proto", "acme.desk.v1", deps=G.STD_DEPS + ["acme/identity/v1/common.proto", "acme/billing/v1/common.proto"])
+    G.add_method(G.add_service(fd, "Desk"), "Charge", ".acme.identity.v1.Account", ".acme.billing.v1.Invoice", http=("post", "/v1/{name=a/*}:charge"), body="*")
+    failures, cases = [], 0
+    try:
+        api, res = G.generate([ident, bill, fd], "autogen-snippets=false,proto-plus-deps=acme.identity.v1+acme.billing.v1", to_generate=["acme/desk/v1/desk.proto"])
+    except Exception as e:      # noqa
+        return {"cases": 1, "failures": [{"case": "same-named modules of two packages in one method: generation failed", "error": repr(e)[:200]}]}
+    cases += import_bindings_unique(res, failures, "same-named modules of two packages in one method")
+    for f in res.file:
+        if f.name.endswith(".py") and "/services/" in f.name:
+            und = undefined_names(ast.parse(f.content))
+            if und:
+                failures.append({"case": "same-named modules of two packages in one method: names used but bound nowhere", "file": f.name, "names": und[:5]})
     return {"cases": cases, "failures": failures}
 
 
